@@ -47,6 +47,13 @@ def cases(ctx):
             yield {'G': G}
     for i in range(30 if not thorough else 300):
         yield {'G': gen.unit_chain_cfg(rng)}
+    for i in range(30 if not thorough else 300):      # right-hand sides of length 5-7 (the splitting phase chains several fresh variables)
+        G = gen.random_cfg(rng, nvars=rng.randint(1, 2), maxlen=2)
+        n = rng.randint(5, 7)
+        G['R'].append([G['S'], max([r[1] for r in G['R']] + [0]) + 1,
+                       [(['v', rng.choice(G['V'])] if rng.random() < 0.3 else ['t', rng.choice(['a', 'b', 'c', 'd', 'e'])]) for _ in range(n)]])
+        G['Sigma'] = sorted({x for _, _, rhs in G['R'] for k, x in rhs if k == 't'})
+        yield {'G': G, 'big': True}
     for nv in (24, 25, 26, 27, 27, 28, 29):       # the 26-letter boundary of cfg_fresh_variable
         yield {'G': big_cfg(rng, nv), 'big': True}
     for i in range(6 if not thorough else 60):
@@ -226,6 +233,25 @@ def judge(ctx, c, answers):
             idx += 1
             if 'ok' not in a or 'ok' not in la or alias_canon(enc.cfg_to_spec(a['ok'])) != alias_canon(la['ok']):
                 ctx.violation('correspondence:cfg_apply_chomsky', {'case': c, 'phase': p, 'impl': str(a)[:200], 'model': la}, no_input=True)
+    # every phase is also a public function: applied ON ITS OWN to the original grammar it must preserve the language, establish its
+    # postcondition and leave the argument alone (the pipeline above only feeds each phase the output of the previous one)
+    for name, f in PHASES[1:]:
+        Gs = enc.build_cfg(G0)
+        b = enc.cfg_to_spec(Gs)
+        got = call(f, Gs, limit=20)
+        if enc.cfg_to_spec(Gs) != b:
+            ctx.violation('argument-mutated', {'case': c, 'phase': name + ' (standalone)'})
+        if 'ok' not in got:
+            ctx.violation('phase-raises', {'case': c, 'phase': name + ' (standalone)', 'impl': got})
+            continue
+        out = enc.cfg_to_spec(got['ok'])
+        lang = {w for w in words if oracles.cfg_accepts(rules_of(out), out['S'], w)}
+        pr = [x for x in post(name, b, out) if name != 'cfg_remove_eps' or x != 'epsilon rule off the start variable' or True]
+        if lang != ref:
+            ctx.violation('phase-changes-language', {'case': c, 'phase': name + ' (standalone)', 'word': sorted(lang ^ ref, key=len)[0], 'impl': out})
+        elif pr:
+            ctx.violation('phase-postcondition', {'case': c, 'phase': name + ' (standalone)', 'problems': pr, 'impl': out})
+        ctx.count('standalone:' + name)
     ctx.record('cfg/' + core.digest(G0), res)
     nontriv = any(not rhs or (len(rhs) == 1 and rhs[0][0] == 'v') or len(rhs) > 2 for _, _, rhs in G0['R'])
     ctx.case(c, nontriv)
